@@ -777,3 +777,58 @@ func eofSiblingRule(R string) RuleFunc {
 		c.Check(len(extra) == 0 && len(en) > 0, R, "processTail:openers", "-", core.F("openers closed at end of input by the enum scanner (%d) are a subset of the schema scanner's (%d)", len(en), len(sc)), "the enum scanner silently closes "+strings.Join(extra, ", ")+" at the end of the input, the schema scanner does not: an unterminated construct is accepted in a rule file and refused inline")
 	}
 }
+
+// slashEOFRule: the end of the input right after the first slash of an annotation is an error.
+func slashEOFRule(R string) RuleFunc {
+	return func(c *core.Ctx) {
+		c.Rule(R, "the schema scanner remembers that it is between the two characters of an annotation opening (switchToAnnotation sets slashPending; stateAnyAnnotationStart and stateInlineAnnotationStart clear it as their first statement) and Next() raises ErrUnexpectedEOF when the input ends in that situation - before it looks at the lexeme stack. Otherwise `1 /` is accepted as if the slash were absent while `1 /⏎` is refused: a trailing line end changes the verdict")
+		c.Floor(R, 4)
+		chk := func(fn string, pred func(body *ast.BlockStmt) bool, what, why string) {
+			d := c.P.FindDecl(fn)
+			if d == nil {
+				c.Unresolved(R, fn)
+				return
+			}
+			c.Check(pred(d.Decl.Body), R, fn, c.P.Pos(d.Decl.Pos()), what, why)
+		}
+		sets := func(val string) func(*ast.BlockStmt) bool {
+			return func(b *ast.BlockStmt) bool {
+				ok := false
+				ast.Inspect(b, func(n ast.Node) bool {
+					if as, isA := n.(*ast.AssignStmt); isA && len(as.Lhs) == 1 && core.ExprStr(as.Lhs[0]) == "s.slashPending" && core.ExprStr(as.Rhs[0]) == val {
+						ok = true
+					}
+					return true
+				})
+				return ok
+			}
+		}
+		first := func(b *ast.BlockStmt) bool {
+			if len(b.List) == 0 {
+				return false
+			}
+			as, ok := b.List[0].(*ast.AssignStmt)
+			return ok && core.ExprStr(as.Lhs[0]) == "s.slashPending" && core.ExprStr(as.Rhs[0]) == "false"
+		}
+		chk("(*notations/jschema/scanner.Scanner).switchToAnnotation", sets("true"), "switchToAnnotation marks the pending slash", "the pending slash is not recorded")
+		chk("notations/jschema/scanner.stateAnyAnnotationStart", first, "stateAnyAnnotationStart clears the mark first", "the mark survives the second character: a complete annotation at the end of the text would be refused")
+		chk("notations/jschema/scanner.stateInlineAnnotationStart", first, "stateInlineAnnotationStart clears the mark first", "the mark survives the second character")
+		chk("(*notations/jschema/scanner.Scanner).Next", func(b *ast.BlockStmt) bool {
+			ok := false
+			for _, st := range b.List {
+				if ifs, isIf := st.(*ast.IfStmt); isIf && core.ExprStr(ifs.Cond) == "s.slashPending" {
+					ast.Inspect(ifs.Body, func(n ast.Node) bool {
+						if call, isC := n.(*ast.CallExpr); isC && core.ExprStr(call.Fun) == "panic" {
+							ok = true
+						}
+						return true
+					})
+				}
+				if ifs, isIf := st.(*ast.IfStmt); isIf && strings.Contains(core.ExprStr(ifs.Cond), "stack.Len() != 0") && !ok {
+					return false // the stack test comes first
+				}
+			}
+			return ok
+		}, "Next() refuses the end of the input while a slash is pending", "the end of the input right after `/` is accepted")
+	}
+}
